@@ -190,7 +190,7 @@ func (c *MJTableComponent) reconstructHTMLElement(node *parser.MJMLNode, w io.St
 		if _, err := w.WriteString(`="`); err != nil {
 			return err
 		}
-		if _, err := w.WriteString(attr.Value); err != nil {
+		if _, err := w.WriteString(strings.ReplaceAll(attr.Value, `"`, "&quot;")); err != nil {
 			return err
 		}
 		if _, err := w.WriteString(`"`); err != nil {
